@@ -175,3 +175,4 @@ def check(ctx):
     import_rules(ctx, "c01", {"lookup-by-full-key", "lookup-result"})
     # keys come back from iteration as stored only if the key loader reads each field where the layout puts it
     import_rules(ctx, "c05", {"field-position"})
+    import_rules(ctx, "c09", {"vu64-reader-consumes-encoded-length"})
